@@ -41,7 +41,7 @@ impl Prop for C15 {
 		"A scenario is a writer history (<= 16 ops) over {serialize ok, serialize poisoned at serde call #n with kind Err | wrong type | missing field | duplicated field (any depth: nested out-of-order record, array element, after bytes were already appended), \
 		 push_serialized (real / reference pre-serialisation), finish_block} ended by into_inner | drop, x codec x approx_block_size (0, 1, tiny, exact datum-size boundaries +-1, large) x user metadata. \
 		 After EVERY API call that returned, the bytes accepted by the sink are snapshotted (= crash point) and judged by the reference container parser + reference datum decoder. \
-		 An evaluation is one snapshot judged. A case is non-trivial when the history holds a failing value or a flush; distinct = distinct (op kind, result, poison kind, nesting depth of the failure, objects pending in the open block, codec, approx_block_size class). One scenario in 250 is a big-blob workload (block sizes across the 8 / 32 / 64 KiB marks); one in four gets a SECOND run in which the sink refuses, cleanly, the first write of an explicit finish_block and is healthy afterwards: every later call that returns Ok is judged like any other."
+		 An evaluation is one snapshot judged. A case is non-trivial when the history holds a failing value or a flush; distinct = distinct (op kind, result, poison kind, nesting depth of the failure, objects pending in the open block, codec, approx_block_size class). One scenario in 250 is a big-blob workload (block sizes across the 8 / 32 / 64 KiB marks); one in four gets a SECOND run in which the sink refuses, cleanly, the first write of an explicit finish_block and is healthy afterwards: every later call that returns Ok is judged like any other. One scenario in 400 is a LONG history (Op::Many): up to 500 calls with every k-th value failing half-way and every j-th pushed pre-serialized, or 65 530-135 000 tiny values in one block; every call's return is still a crash point."
 	}
 	fn assumptions(&self) -> Vec<String> {
 		vec![
